@@ -266,6 +266,15 @@ def fixed_rt_cases(tier):
         for dn in (-1, 0, 1):
             for dep in ("", ",lz4:block-dependence"):
                 out.append(vfmt([2, ["lz4"], "lz4:block-size=%d%s" % (bs, dep), [3, 20 + bs, n + dn], [], [65536], 0, 0]))
+    # history across block boundaries: an incompressible (stored) block followed by data whose matches reach
+    # back into it - lz4 block dependence with blocks above 64 KiB, zstd long windows, gzip/xz windows
+    for bs, blk in ((5, 262144), (6, 1048576), (7, 4194304) if tier == "thorough" else (5, 262144)):
+        for dist in (60000, 65536, 70000):
+            for extra in ("", ",lz4:!stream-checksum", ",lz4:compression-level=9"):
+                out.append(vfmt([2, ["lz4"], "lz4:block-dependence,lz4:block-size=%d%s" % (bs, extra),
+                                 [4, 7 + bs, blk + 100000, blk, dist], [], [65536], 0, 0]))
+    for f, o in (("zstd", ""), ("zstd", "zstd:long=23"), ("gzip", ""), ("xz", ""), ("lz4", "")):
+        out.append(vfmt([2, [f], o, [4, 11, 400000, 262144, 60000], [], [10240], 0, 0]))
     # known defect classes (exact failing inputs)
     for f in UUISH:
         out.append(vfmt([2, [f], "", b"", [], [], 0, 0]))
